@@ -1,1 +1,229 @@
-//! instrumented containers (DESIGN 3.5)
+//! Instrumented containers (DESIGN 3.5). `ProbeVec` records every unchecked access made to an input,
+//! `ProbeOut` / `ProbeUninit` record every write made to an output buffer and every step of a trusted
+//! collection. Faults are logged (thread-local) and replaced by defined behaviour, so the harness never
+//! drives real memory into undefined behaviour.
+use crate::elem::{Elem, OutCells};
+use mc_core::Cell;
+use std::cell::RefCell;
+use tevec::prelude::*;
+
+#[derive(Default, Debug, Clone)]
+pub struct ProbeLog {
+    pub faults: Vec<String>,
+    pub ugets: u64,
+    pub uslices: u64,
+    pub usets: u64,
+    /// forward passes observed by `collect_from_trusted`: (hints before each next incl. the last, items yielded)
+    pub passes: Vec<(Vec<(usize, Option<usize>)>, usize)>,
+}
+
+thread_local! {
+    static LOG: RefCell<ProbeLog> = RefCell::new(ProbeLog::default());
+}
+pub fn probe_reset() {
+    LOG.with(|l| *l.borrow_mut() = ProbeLog::default());
+}
+pub fn probe_take() -> ProbeLog {
+    LOG.with(|l| std::mem::take(&mut *l.borrow_mut()))
+}
+fn fault(s: String) {
+    LOG.with(|l| {
+        let mut l = l.borrow_mut();
+        if l.faults.len() < 8 {
+            l.faults.push(s);
+        }
+    });
+}
+
+/// Instrumented input container.
+#[derive(Clone, Debug)]
+pub struct ProbeVec<T> {
+    pub data: Vec<T>,
+    pub tag: &'static str,
+}
+impl<T> ProbeVec<T> {
+    pub fn new(data: Vec<T>, tag: &'static str) -> Self {
+        ProbeVec { data, tag }
+    }
+}
+impl<T> GetLen for ProbeVec<T> {
+    fn len(&self) -> usize {
+        self.data.len()
+    }
+}
+impl<T: Clone> TIter<T> for ProbeVec<T> {
+    fn titer(&self) -> impl TIterator<Item = T> + '_ {
+        self.data.iter().cloned()
+    }
+}
+impl<T: Clone + Default> Vec1View<T> for ProbeVec<T> {
+    type SliceOutput<'a>
+        = Vec<T>
+    where
+        Self: 'a,
+        T: 'a;
+
+    fn get_backend_name(&self) -> &'static str {
+        "probe"
+    }
+    fn slice<'a>(&'a self, start: usize, end: usize) -> TResult<Vec<T>>
+    where
+        T: 'a,
+    {
+        if start <= end && end <= self.data.len() {
+            Ok(self.data[start..end].to_vec())
+        } else {
+            tbail!("slice {}..{} out of range for length {}", start, end, self.data.len())
+        }
+    }
+    unsafe fn uslice<'a>(&'a self, start: usize, end: usize) -> TResult<Vec<T>>
+    where
+        T: 'a,
+    {
+        LOG.with(|l| l.borrow_mut().uslices += 1);
+        let len = self.data.len();
+        if start <= end && end <= len {
+            Ok(self.data[start..end].to_vec())
+        } else {
+            fault(format!("{}: uslice({start}, {end}) on length {len}", self.tag));
+            let e = end.min(len);
+            let s = start.min(e);
+            Ok(self.data[s..e].to_vec())
+        }
+    }
+    unsafe fn uget(&self, index: usize) -> T {
+        LOG.with(|l| l.borrow_mut().ugets += 1);
+        match self.data.as_slice().iter().nth(index) {
+            Some(v) => v.clone(),
+            None => {
+                fault(format!("{}: uget({index}) on length {}", self.tag, self.data.len()));
+                T::default()
+            }
+        }
+    }
+}
+
+/// Instrumented output container.
+#[derive(Clone, Debug, Default)]
+pub struct ProbeOut<T> {
+    pub data: Vec<T>,
+}
+pub struct ProbeUninit<T> {
+    slots: Vec<Option<T>>,
+    counts: Vec<u32>,
+}
+impl<T> GetLen for ProbeOut<T> {
+    fn len(&self) -> usize {
+        self.data.len()
+    }
+}
+impl<T: Clone> TIter<T> for ProbeOut<T> {
+    fn titer(&self) -> impl TIterator<Item = T> + '_ {
+        self.data.iter().cloned()
+    }
+}
+impl<T: Clone + Default> Vec1View<T> for ProbeOut<T> {
+    type SliceOutput<'a>
+        = Vec<T>
+    where
+        Self: 'a,
+        T: 'a;
+    fn get_backend_name(&self) -> &'static str {
+        "probe-out"
+    }
+    unsafe fn uget(&self, index: usize) -> T {
+        self.data.as_slice().iter().nth(index).cloned().unwrap_or_default()
+    }
+}
+impl<T> GetLen for ProbeUninit<T> {
+    fn len(&self) -> usize {
+        self.slots.len()
+    }
+}
+impl<T> ProbeUninit<T> {
+    fn write(&mut self, idx: usize, v: T) {
+        LOG.with(|l| l.borrow_mut().usets += 1);
+        if idx < self.slots.len() {
+            self.counts[idx] += 1;
+            self.slots[idx] = Some(v);
+        } else {
+            fault(format!("uset({idx}) on output buffer of length {}", self.slots.len()));
+        }
+    }
+    /// the caller-buffer path ends without assume_init: verify the exactly-once law explicitly
+    pub fn finish(self) -> ProbeOut<T>
+    where
+        T: Default,
+    {
+        let n = self.slots.len();
+        let bad: Vec<String> = self.counts.iter().enumerate().filter(|(_, c)| **c != 1).map(|(i, c)| format!("slot {i} written {c}x")).collect();
+        if !bad.is_empty() {
+            fault(format!("output buffer of length {n} exposed as initialised with {}", bad[..bad.len().min(6)].join(", ")));
+        }
+        ProbeOut { data: self.slots.into_iter().map(|s| s.unwrap_or_default()).collect() }
+    }
+}
+impl<T: Clone + Default> UninitVec<T> for ProbeUninit<T> {
+    type Vec = ProbeOut<T>;
+    unsafe fn assume_init(self) -> ProbeOut<T> {
+        self.finish()
+    }
+    unsafe fn uset(&mut self, idx: usize, v: T) {
+        self.write(idx, v)
+    }
+}
+impl<T> UninitRefMut<T> for &mut ProbeUninit<T> {
+    unsafe fn uset(&mut self, idx: usize, v: T) {
+        self.write(idx, v)
+    }
+}
+impl<T: Clone + Default> Vec1<T> for ProbeOut<T> {
+    type Uninit = ProbeUninit<T>;
+    type UninitRefMut<'a>
+        = &'a mut ProbeUninit<T>
+    where
+        T: 'a;
+    fn collect_from_iter<I: Iterator<Item = T>>(iter: I) -> Self {
+        ProbeOut { data: iter.collect() }
+    }
+    fn uninit(len: usize) -> ProbeUninit<T> {
+        ProbeUninit { slots: (0..len).map(|_| None).collect(), counts: vec![0; len] }
+    }
+    fn uninit_ref_mut(u: &mut ProbeUninit<T>) -> &mut ProbeUninit<T> {
+        u
+    }
+    /// the trusted collector: observes the whole forward pass of the iterator it is handed
+    fn collect_from_trusted<I: TrustedLen<Item = T>>(mut iter: I) -> Self {
+        let first = iter.size_hint();
+        let cap = first.1.unwrap_or(first.0).saturating_add(4096);
+        let mut hints = vec![];
+        let mut data = vec![];
+        loop {
+            hints.push(iter.size_hint());
+            match iter.next() {
+                Some(v) => {
+                    if data.len() >= cap {
+                        break;
+                    }
+                    data.push(v)
+                }
+                None => break,
+            }
+        }
+        if first.1 != Some(data.len()) {
+            fault(format!("trusted iterator announced {:?} and yielded {}{} items: a raw collector writes outside / exposes uninitialised memory", first, if data.len() >= cap { ">= " } else { "" }, data.len()));
+        }
+        LOG.with(|l| l.borrow_mut().passes.push((hints, data.len())));
+        ProbeOut { data }
+    }
+}
+impl<T: Elem> OutCells for ProbeOut<T> {
+    fn cells(&self) -> Vec<Cell> {
+        self.data.iter().map(|x| x.dec()).collect()
+    }
+}
+impl<T: Elem> OutCells for ProbeOut<(T, T, T)> {
+    fn cells(&self) -> Vec<Cell> {
+        self.data.iter().flat_map(|(a, b, c)| [a.dec(), b.dec(), c.dec()]).collect()
+    }
+}
